@@ -77,6 +77,17 @@ func (n *LocalNode) VerifPointers() VerifPointers {
 
 func (n *LocalNode) VerifState() chord.State { return n.state.Get() }
 
+// VerifPredecessorID returns the id the predecessor pointer names right now (false: nil).
+// Only to be called where the caller holds none of the node's locks.
+func (n *LocalNode) VerifPredecessorID() (uint64, bool) {
+	n.predecessorMu.RLock()
+	defer n.predecessorMu.RUnlock()
+	if n.predecessor == nil {
+		return 0, false
+	}
+	return n.predecessor.ID(), true
+}
+
 func (n *LocalNode) VerifStateHistory() []chord.State { return n.state.History() }
 
 func (n *LocalNode) VerifKV() chord.KVProvider { return n.kv }
